@@ -8,6 +8,7 @@ package main
 import (
 	"encoding/json"
 	"fmt"
+	"net"
 	"os"
 	"reflect"
 	"strings"
@@ -87,6 +88,13 @@ func fieldVals(rr dns.RR, steps []textStep) (string, bool) {
 			out = append(out, fmt.Sprintf("n:%d", fv.Uint()))
 		case "name", "endstr", "tok", "octet", "tokstr", "salt":
 			out = append(out, "s:"+hexOrDash([]byte(fv.String())))
+		case "ipv4":
+			// a four-octet address (from the wire), or what net.ParseIP returned for one (sixteen octets)
+			ip := net.IP(fv.Bytes()).To4()
+			if ip == nil {
+				return "", false
+			}
+			out = append(out, "s:"+hexOrDash(ip))
 		case "txt":
 			var parts []string
 			for i := 0; i < fv.Len(); i++ {
@@ -198,7 +206,9 @@ func textStream(c *Ctx, per int) {
 		// relative names and @ against an origin, numbers at their limits
 		for _, rd := range []string{"@", "rel", "rel.ative", "0 rel", "65535 @", "65536 rel", "255 255 255 abcd", "256 1 1 abcd", "0 0 0 rel", "1 2 3 @",
 			"00 001 0002 rel", "\"a\" \"b\"", "abcd ef01", "1 RSASHA256 2 abcd", "1 rsasha1 2 abcd", "1 ED25519 1 ab cd", "1 NOSUCH 1 ab", "1 256 1 ab", "31 8 2 ab", "4294967295 1 1 aa", "4294967296 1 1 aa", "",
-			"ns h 1 1h 2d 3w 4m", "ns. h. 1h 1 1 1 1", "@ @ 4294967295 4294967295 1H1M 1w1d 0", "ns h 4294967296 1 1 1 1", "ns h 1 2 3 4 5 6", "ns h 1 2 3 4", "ns h 1 2 3 4 5x", "ns h 1 7102w 3 4 5"} {
+			"ns h 1 1h 2d 3w 4m", "ns. h. 1h 1 1 1 1", "@ @ 4294967295 4294967295 1H1M 1w1d 0", "ns h 4294967296 1 1 1 1", "ns h 1 2 3 4 5 6", "ns h 1 2 3 4", "ns h 1 2 3 4 5x", "ns h 1 7102w 3 4 5",
+			"1.2.3.4", "01.2.3.4", "1.2.3.256", "1.2.3", "1.2.3.4.5", "::ffff:1.2.3.4", "1.2.3.4 x", "255.255.255.255", "0.0.0.0", "1..2.3", "1.2.3.4.",
+			"0x1.2.3.4", "1.2.3.04", "1.2.3.0004", "192.0.2.1 ; c", "1.2.3.4:", "1.2.3.4%eth0", "1.2.3.+4", "1.2.3.4\\000", "\"1.2.3.4\"", "1:2:3:4:5:6:7:8", "::1.2.3.4", "1.2.3.4 (\n)", "00.0.0.0", "0.0.0.00", "1.2.3.255", "1.2.3.2555"} {
 			line := "x.example. 5 IN " + tn + " " + rd + "\n"
 			parseOne("directed", structName, "example.org.", line, pl.Parse)
 		}
